@@ -112,7 +112,10 @@ impl builtins::Command for ReadCommand {
         let ifs = context.shell.ifs().into_owned();
 
         // Convert timeout to Duration.
-        let timeout = self.timeout_in_seconds.map(Duration::from_secs_f64);
+        // N.B. A timeout too large to represent is as good as no timeout at all.
+        let timeout = self
+            .timeout_in_seconds
+            .and_then(|t| Duration::try_from_secs_f64(t).ok());
 
         // Perform the read operation (potentially with timeout).
         let read_result = self.read_line(input_stream, context.stderr(), timeout)?;
@@ -334,7 +337,8 @@ impl InputReader {
     ) -> Self {
         Self {
             input,
-            deadline: timeout.map(|t| Instant::now() + t),
+            // N.B. A deadline beyond what the clock can represent is no deadline.
+            deadline: timeout.and_then(|t| Instant::now().checked_add(t)),
             buffer: [0; 1],
             _term_mode: term_mode,
         }
